@@ -614,7 +614,12 @@ func printerTable(ctx *Ctx, r *Result, rule string, fn *ssa.Function, K, W strin
 }
 
 // parallelSlices implements R1.4 on the SSA of package origins.
-func parallelSlices(ctx *Ctx, r *Result, rule string) {
+func parallelSlices(ctx *Ctx, r *Result, rule string) { parallelSlicesMode(ctx, r, rule, false) }
+
+// parallelSlicesMode with lengthOnly checks only what the bounds proofs
+// need: the two slices of a pair always change length together (each
+// constructor adds exactly one element, or both are copied from one node).
+func parallelSlicesMode(ctx *Ctx, r *Result, rule string, lengthOnly bool) {
 	p := ctx.P
 	partner := map[string]string{}
 	for _, pr := range parallelPairs {
@@ -698,9 +703,11 @@ func parallelSlices(ctx *Ctx, r *Result, rule string) {
 					switch {
 					case mate == nil:
 						r.fail(rule, desc, p.Pos(s.ins.Pos()), fmt.Sprintf("node.%s is replaced without its parallel slice node.%s being updated in the same block", f, partner[f]))
+					case lengthOnly && (s.c.kind == "insert" || s.c.kind == "append") && (mate.c.kind == "insert" || mate.c.kind == "append"):
+						r.ok(rule, desc, 1, s.c.kind+"/"+mate.c.kind+": both grow by one element")
 					case s.c.kind != mate.c.kind || s.c.kind == "other":
 						r.fail(rule, desc, p.Pos(s.ins.Pos()), fmt.Sprintf("node.%s and node.%s are rebuilt by different operations (%s vs %s): their elements no longer correspond", f, partner[f], s.c.kind, mate.c.kind))
-					case s.c.kind == "insert" && s.c.idx != mate.c.idx:
+					case s.c.kind == "insert" && s.c.idx != mate.c.idx && !lengthOnly:
 						r.fail(rule, desc, p.Pos(s.ins.Pos()), fmt.Sprintf("node.%s and node.%s receive their new elements at different indices", f, partner[f]))
 					case s.c.kind == "copy" && s.c.src != mate.c.src:
 						r.fail(rule, desc, p.Pos(s.ins.Pos()), fmt.Sprintf("node.%s and node.%s are copied from different nodes", f, partner[f]))
@@ -723,7 +730,7 @@ func parallelSlices(ctx *Ctx, r *Result, rule string) {
 				if _, mut := mutatingExternal[name]; !mut || len(c.Common().Args) == 0 {
 					continue
 				}
-				if u, ok := c.Common().Args[0].(*ssa.UnOp); ok {
+				if u, ok := c.Common().Args[0].(*ssa.UnOp); ok && !lengthOnly {
 					if _, fld, ok := nodeField(u.X); ok {
 						n++
 						r.fail(rule, fmt.Sprintf("%s: %s(node.%s) @%s", funcName(fn), name, fld, p.Pos(ins.Pos())), p.Pos(ins.Pos()),
